@@ -312,6 +312,49 @@ fn routes_part(run: &Run, thorough: bool) -> Acc {
         .reduce(Acc::new, Acc::merge)
 }
 
+/// sizes around powers of two: strings of 1-, 2- and 4-byte characters (length counts characters), arrays and objects
+fn sizes_part(run: &Run, thorough: bool) -> Acc {
+    let mut sizes: Vec<usize> = vec![15, 16, 17, 31, 32, 33, 63, 64, 65, 255, 256, 257];
+    if thorough {
+        sizes.extend([1023, 1024, 1025, 65535, 65536, 65537]);
+    }
+    let mut cells: Vec<Value> = vec![];
+    for &n in &sizes {
+        cells.push(json!("a".repeat(n)));
+        cells.push(json!("\u{e9}".repeat(n)));
+        cells.push(json!("\u{1d11e}".repeat(n)));
+        cells.push(json!(format!("{}b", "a".repeat(n - 1))));
+        if n <= 1025 {
+            cells.push(Value::Array((0..n).map(|i| json!(i)).collect()));
+            cells.push(Value::Object((0..n).map(|i| (format!("k{}", i), json!(i))).collect()));
+        }
+    }
+    let doc = Value::Array(cells.clone());
+    let dc = DocCtx::new(&doc);
+    let mut qs: Vec<String> = vec![];
+    for &n in &sizes {
+        for op in ["==", "<", ">="] {
+            qs.push(format!("$[?length(@){}{}]", op, n));
+            qs.push(format!("$[?count(@.*){}{}]", op, n));
+            qs.push(format!("$[?count(@[*]){}length(@)]", op));
+        }
+        qs.push(format!("$[?length(@)=={}.0]", n));
+    }
+    for q in ["$[?match(@,'a*')]", "$[?match(@,'.*')]", "$[?search(@,'ab')]", "$[?match(@,'a*b')]", "$[?search(@,'aa')]", "$[?match(@,'[^a]*')]", "$[?length(@)==length(value(@))]"] {
+        qs.push(q.to_string());
+    }
+    qs.par_iter()
+        .map(|q| {
+            let mut acc = Acc::new();
+            let ast = parse(q);
+            if let Some(ids) = packed_on(run, &mut acc, q, &ast, &cells, &wrap_arr, "sizes around powers of two", &dc) {
+                acc.nontrivial += ids.len() as u64;
+            }
+            acc
+        })
+        .reduce(Acc::new, Acc::merge)
+}
+
 pub fn run(tier: &str) -> i32 {
     let run = Run::new("C10", tier);
     let th = run.thorough();
@@ -358,7 +401,7 @@ pub fn run(tier: &str) -> i32 {
     }
     let a = regex_part(&run, size);
     let b = value_part(&run, th);
-    let mut acc = a.merge(b).merge(routes_part(&run, th));
+    let mut acc = a.merge(b).merge(routes_part(&run, th)).merge(sizes_part(&run, th));
     acc.bump("oracle_cross_checks_against_regex_crate", checked);
     run.finish(
         acc,
